@@ -380,4 +380,12 @@ def main(argv: list[str]) -> int:
 
 
 if __name__ == "__main__":
-    sys.exit(main(sys.argv[1:]))
+    try:
+        rc = main(sys.argv[1:])
+    except BaseException as e:  # noqa - a crash of the machinery itself is never a verdict about chartparse (exit status 1 means "violated")
+        if isinstance(e, SystemExit):
+            raise
+        traceback.print_exc()
+        print(f"INCONCLUSIVE property={sys.argv[1] if len(sys.argv) > 1 else '?'} reason=the check itself crashed: {type(e).__name__}: {e}")
+        rc = 2
+    sys.exit(rc)
